@@ -62,7 +62,7 @@ def with_silent_ops(jobs):
         reqs.append(rq[0])
         idx.append(j)
     reps = model_batch(reqs) if reqs else []
-    out = [[(o, a) for o, a in c if a is not None and not o.startswith('?')] for c in convs]
+    out = [[(o, a) for o, a in c if a is not None and not o.startswith('?') and not o.startswith('!')] for c in convs]
     for j, rep in zip(idx, reps):
         if rep.startswith('!ERR'):
             continue
@@ -95,7 +95,7 @@ def run_monitors(run, section, jobs, what, key, silent=None):
             conv = merged[j]
         else:
             conv = tracelevel.convert(obs['trace'])
-            conv = [(o, a) for o, a in conv if a is not None and not o.startswith('?')]
+            conv = [(o, a) for o, a in conv if a is not None and not o.startswith('?') and not o.startswith('!')]
         reqs.append(monitor_requests(name, param, conv))
         metas.append((obs, case, conv))
     reps = model_batch(reqs)
